@@ -186,6 +186,20 @@ def sink_rule(crate, body, rep, cfg, counts):
             what = "raw write_all to the sink only emits template text (Instruction::WriteText payload) or the finished block buffer"
             (rep.ok if ok else rep.bad)("C01.SINK", key, body.where(bb), what if ok else what + " — VIOLATED: bytes origin %s" % sorted(leaf_str(l) for l in src)[:2])
             continue
+        if callee_def(t).endswith("Vec::<T, A>::extend_from_slice") and wk and wk[0][0] == 0 and wk[0][1] in ("out", "capture"):
+            # bytes copied from one of the VM's own output buffers: a fresh local Vec that was handed, as the sink, to the VM's own
+            # interpret (so everything in it already went through this very discipline)
+            src = {(l.kind, l.detail) for l in tr.operand(t["args"][1])}
+            fed = False
+            for b2, t2 in body.calls():
+                if any(n.endswith(PASS_ON) for n in callee_names(t2)) and t2["args"]:
+                    o = {(l.kind, l.detail) for l in tr.operand(t2["args"][-1])}
+                    if o and o == src and all(k == "call" and (d[0].endswith("::with_capacity") or d[0].endswith("Vec::<T>::new")) for k, d in o):
+                        fed = True
+            key = "C01.SINK:%s:copy-of-vm-output#%d" % (body.path, nxt("copy-of-vm-output"))
+            what = "bytes appended to the sink come from a fresh local buffer that the VM's own interpret filled as its output sink"
+            (rep.ok if fed else rep.bad)("C01.SINK", key, body.where(bb), what if fed else what + " — VIOLATED: origin %s" % sorted(src)[:2])
+            continue
         if any(n.endswith(PASS_ON) for n in names):
             key = "C01.SINK:%s:pass-on:%s#%d" % (body.path, callee_def(t).rsplit("::", 1)[-1], nxt("pass-on"))
             rep.ok("C01.SINK", key, body.where(bb), "the sink is handed on to the VM's own %s (analysed by the same rule)" % callee_def(t).rsplit("::", 1)[-1])
